@@ -70,6 +70,7 @@ type Config struct {
 	App2FAHandler     bool     // the application registers After(EventTwoFactorAdded/Removed) handlers that answer the request themselves
 	MailGoroutine     bool     // leave MailNoGoroutine=false (schedule engine only)
 	SMTPMailer        bool     // use defaults.SMTPMailer (through the vsmtp shim)
+	AppRecoverEndHook bool     // the application registers, ahead of the modules, an After(EventRecoverEnd) handler that returns handled=true
 	PerClientData     bool     // the application injects per-client template data into every request context (CTXKeyData)
 	LogMailer         bool     // use defaults.LogMailer writing into the world's mail stream (every Write is a scheduling point)
 }
@@ -380,6 +381,11 @@ func NewStack(cfg Config) (*Stack, error) {
 	s.rng = &rngReader{s}
 	ab := authboss.New()
 	s.AB = ab
+	if cfg.AppRecoverEndHook {
+		// an application hook registered ahead of the modules' own that reports the event as handled
+		// (it did its own bookkeeping); the modules' security duties on that event are not optional
+		ab.Events.After(authboss.EventRecoverEnd, func(w http.ResponseWriter, r *http.Request, handled bool) (bool, error) { return true, nil })
+	}
 
 	if cfg.NoMount {
 		ab.Config.Paths.Mount = ""
